@@ -437,6 +437,17 @@ func ruleWriteBits(c *Ctx, id string) {
 	s := bitWriters(c)
 	ws, _ := preCommitWrites(c)
 	done := map[*ssa.Function]bool{}
+	{
+		var desc []map[string]interface{}
+		for _, w := range ws {
+			var leaves []string
+			for _, l := range w.info.leaves {
+				leaves = append(leaves, FuncName(l.fn)+":"+l.pol)
+			}
+			desc = append(desc, map[string]interface{}{"list": w.list, "bitmap": w.start, "writer": FuncName(w.info.fn), "writer_polarity": w.info.pol, "leaves": leaves, "written_as_set": w.pol, "decided": w.polOK})
+		}
+		R.Extra["bit_writers"] = desc
+	}
 	if len(ws) == 0 {
 		R.Fail(id, "alloctxn.(*AllocTxn).PreCommit|bit writers", P.Pos(V.PreCommit.Pos()), "PreCommit writes the bitmaps through functions that OverWrite one bit per number", "no such call found")
 		return
